@@ -12,18 +12,26 @@ From HexVerif Require Import XAst XSem XConstProp XConstPropProofs XConstPropDec
 Import ListNotations.
 Local Open Scope Z_scope.
 
+(* PARTIAL (suffix _partial on theorems 1 and 2): both are stated for the PURE fragment of expressions only -- the
+   hypothesis `XSem.eval_const lk e = inr v` / `meval true lk e = inr v` can hold only for expressions built from
+   literals, true/false, names, unary and binary operators (eval_const answers `Unsupported` for calls, system calls,
+   array subscripts and strings).  MISSING: expressions that contain calls, input/output or array reads, and the state
+   and effects of the full interpreter XSem.eval; the statement that would cover them is C07_fold_agrees_full below
+   (a Definition, NOT proved; it can hold only up to the order in which footprints are recorded, because OptimiseExpr
+   swaps the operands of > and <=).  For those expressions the evidence is the paired-program oracle of tools/c07.py
+   (calls with side effects, array subscripts and conditions are generated there), not a theorem. *)
 (* 1. folding + val propagation + rewriting preserve the X value of every defined pure expression, constant sub-trees
       anywhere; the folding hits no undefined behaviour of C; a node annotated constant carries exactly the value *)
-Theorem C07_fold_agrees : forall (E : cpenv) (lk : string -> option Z) (e : expr) (v : Z),
+Theorem C07_fold_agrees_partial : forall (E : cpenv) (lk : string -> option Z) (e : expr) (v : Z),
   env_ok E lk -> XSem.eval_const lk e = inr v ->
   exists ae, cp_expr E e = COk ae /\ (forall c, const_of ae = Some c -> c = v) /\
              XSem.eval_const lk (erase ae) = inr v /\ XSem.eval_const lk (erase (opt_expr ae)) = inr v.
 Proof. exact fold_agrees_xsem. Qed.
-Print Assumptions C07_fold_agrees.
+Print Assumptions C07_fold_agrees_partial.
 
 (* 2. the same with results that wrap around (meval true: + - unary minus in two's complement): agreement for all
       32-bit leaves -- or, only when the compiler folds on C int, signed overflow inside the compiler *)
-Theorem C07_fold_agrees_wrap : forall (E : cpenv) (lk : string -> option Z) (e : expr) (v : Z),
+Theorem C07_fold_agrees_wrap_partial : forall (E : cpenv) (lk : string -> option Z) (e : expr) (v : Z),
   env_ok E lk -> meval true lk e = inr v ->
   match cp_expr E e with
   | COk ae => (forall c, const_of ae = Some c -> c = v) /\ meval true lk (erase ae) = inr v /\ meval true lk (erase (opt_expr ae)) = inr v
@@ -31,7 +39,7 @@ Theorem C07_fold_agrees_wrap : forall (E : cpenv) (lk : string -> option Z) (e :
   | _ => False
   end.
 Proof. exact fold_agrees_wrap. Qed.
-Print Assumptions C07_fold_agrees_wrap.
+Print Assumptions C07_fold_agrees_wrap_partial.
 
 Theorem C07_meval_is_xsem : forall lk e, meval false lk e = XSem.eval_const lk e.
 Proof. exact meval_false. Qed.
@@ -105,6 +113,10 @@ Theorem C07_fold_int_overflow_refuted :
 Proof. split; [exact fold_int_overflow | exact fold_int_overflow_defined_program]. Qed.
 Print Assumptions C07_fold_int_overflow_refuted.
 
+(* Theorems 8 and 9 are about DECLARATIONS (val values, array lengths): these are constant expressions by the X
+   definition itself (XSem.init_globals / XSem.local_decls evaluate them with eval_const), so nothing is left out
+   for them; they are not `_partial`.  What they deliver for expressions in statement bodies is only the environment
+   hypotheses env_ok / all_vals of the two _partial theorems above, i.e. again the pure fragment. *)
 (* 8. propagation of val names.  Global declarations: where the X definition (XSem.init_globals) gives the vals values,
       ConstProp gives every ValDecl the same value (array lengths fold as well), and afterwards every constant name
       resolves through the symbol table to that value: the environment hypotheses of theorems 1 and 2 hold. *)
